@@ -12,6 +12,7 @@ Section Inv.
   Variable c_matching : vkey -> res (list version).
   Variable sem_match : bytes -> bytes -> res bool.
   Variable rk : vkey.   (* the root key *)
+  Variable rvk : vkey.  (* the key of the version the client returned for the root *)
 
   Notation step_dep := (step_dep c_version c_requirements c_matching sem_match).
   Notation process_deps := (process_deps c_version c_requirements c_matching sem_match).
@@ -92,7 +93,7 @@ Section Inv.
          exists wp, last_opt dvers = Some wp /\ t_ver t = pick_version wp dvers).
 
   Record inv (st : state) : Prop := {
-    iv_root : exists rn, nth_error (s_tree st) 0 = Some rn /\ t_parent rn = None /\ t_id rn = 0;
+    iv_root : exists rn, nth_error (s_tree st) 0 = Some rn /\ t_parent rn = None /\ t_id rn = 0 /\ gkey rn = rvk;
     iv_g0 : nth_error (g_nodes (s_g st)) 0 = Some rk;
     iv_node : forall i n, nth_error (s_tree st) i = Some n -> node_ok (s_g st) i n;
     iv_gnode : forall k, k <> 0 -> k < length (g_nodes (s_g st)) ->
@@ -180,7 +181,7 @@ Section Inv.
     intros ifuel st cur curn d insq st' insq' I Hcur Hproc Hd H.
     pose proof (step_dep_out _ _ _ _ _ _ _ _ _ _ _ _ H Hcur (parents_in_range _ I)) as O.
     pose proof (cur_id_valid _ _ _ I Hcur) as Hcid.
-    destruct (iv_root _ I) as [rn [Hrn [Hrp Hrid]]].
+    destruct (iv_root _ I) as [rn [Hrn [Hrp [Hrid Hrk]]]].
     assert (Hl0 : 0 < length (s_tree st)) by (apply nth_error_Some; congruence).
     assert (Hcurid : cur = 0 \/ t_id curn <> 0).
     { destruct (iv_node _ I _ _ Hcur) as [_ [_ [_ [_ [_ [_ H7]]]]]]. auto. }
@@ -199,7 +200,8 @@ Section Inv.
           rewrite H0 in Hm. inversion Hm; subst. exact Cm. }
         constructor.
         * destruct (Hfwd _ _ Hrn) as [n [Hn Cn]]. exists n. apply core_fields in Cn.
-          destruct Cn as [_ [_ [_ [_ [C5 [C6 _]]]]]]. repeat split; congruence.
+          destruct Cn as [_ [C2 [_ [_ [C5 [C6 C7]]]]]]. repeat split; try congruence.
+          unfold gkey in *. rewrite C2, C7. exact Hrk.
         * rewrite Hg. simpl. apply (iv_g0 _ I).
         * intros i n Hn. eapply node_ok_mono; [exact GL|].
           eapply node_ok_new; [exact Hl0 | apply Hnodes; exact Hn |]. intros n0 H0. apply (iv_node _ I _ _ H0).
@@ -251,7 +253,8 @@ Section Inv.
         constructor.
         * destruct (Hkept _ _ Hrn) as [n [Hn Cn]]. exists n.
           destruct Cn as [C|[F1 [F2 C]]]; [| contradiction].
-          apply core_fields in C. destruct C as [_ [_ [_ [_ [C5 [C6 _]]]]]]. repeat split; congruence.
+          apply core_fields in C. destruct C as [_ [C2 [_ [_ [C5 [C6 C7]]]]]]. repeat split; try congruence.
+          unfold gkey in *. rewrite C2, C7. exact Hrk.
         * destruct GL as [[l Hl] _]. rewrite Hl. apply nth_error_app_some. apply (iv_g0 _ I).
         * intros i n Hn. destruct (Hback _ _ Hn) as [n0 [H0 [C|[E [[b [F1 [F2 F3]]] C]]]]].
           -- eapply node_ok_mono; [exact GL|]. eapply node_ok_core; eauto. apply (iv_node _ I _ _ H0).
@@ -349,7 +352,8 @@ Section Inv.
         destruct HC as [C1 [C2 [C3 [C4 [C5 [C6 C7]]]]]].
         constructor.
         * destruct (Hfwd _ _ Hrn) as [n [Hn Cn]]. exists n. apply core_fields in Cn.
-          destruct Cn as [_ [_ [_ [_ [D5 [D6 _]]]]]]. repeat split; congruence.
+          destruct Cn as [_ [D2 [_ [_ [D5 [D6 D7]]]]]]. repeat split; try congruence.
+          unfold gkey in *. rewrite D2, D7. exact Hrk.
         * rewrite Hgn. apply nth_error_app_some. apply (iv_g0 _ I).
         * intros i n Hn. destruct (Nat.eq_dec i nid) as [E|E].
           -- subst i. rewrite Hnn in Hn. inversion Hn; subst n.
